@@ -24,6 +24,7 @@ pub open spec fn deleg_rr_ok(rr: ResourceRecord, owner: DomainName, hosts: Set<D
         _ => false,
     }
 }
+pub open spec fn all_aliases(rrs: Seq<ResourceRecord>) -> bool { forall|j: int| 0 <= j < rrs.len() ==> (#[trigger] rrs[j]).rtype_with_data is CNAME }
 pub open spec fn response_ok(r: NameserverResponse, question: Question, response: Message, count: usize) -> bool {
     match r {
         NameserverResponse::Answer { rrs, soa_rr } =>
@@ -31,7 +32,8 @@ pub open spec fn response_ok(r: NameserverResponse, question: Question, response
             && (soa_rr is Some ==> rrs@.len() == 0 && response.answers@.len() == 0 && in_section(soa_rr->Some_0, response.authority@)
                     && spec_rtype_of(soa_rr->Some_0.rtype_with_data) == RecordType::SOA
                     && is_suffix(soa_rr->Some_0.name.labels@, question.name.labels@) && soa_rr->Some_0.name.labels@.len() >= count),
-        NameserverResponse::CNAME { rrs, cname } => rrs@.len() > 0 && answer_ok(rrs@, response.answers@, question.name, cname, question.qtype),
+        NameserverResponse::CNAME { rrs, cname } => rrs@.len() > 0 && answer_ok(rrs@, response.answers@, question.name, cname, question.qtype)
+            && all_aliases(rrs@), // a reply that only leads to another name holds alias records only
         NameserverResponse::Delegation { rrs, delegation } =>
             is_suffix(delegation.name.labels@, question.name.labels@) && delegation.name.labels@.len() > count
             && delegation.hostnames@.len() > 0
@@ -71,7 +73,8 @@ let ghost pn_b = *path_name;
             cmap_from(cname_map@, response.answers@), path_ok(cname_map@, response.answers@, question.name, final_name, question.qtype),
             forall|x: DomainName| #[trigger] on_path@.contains(x) ==> is_on_path(cname_map@, question.name, x),
             forall|j: int| 0 <= j < rrs_for_query@.len() ==> in_section(#[trigger] rrs_for_query@[j], response.answers@) // [C06:answer_records_on_cname_path]
-                && answer_rr_ok(rrs_for_query@[j], cname_map@, question.name, final_name, question.qtype),""",
+                && answer_rr_ok(rrs_for_query@[j], cname_map@, question.name, final_name, question.qtype),
+            !seen_final_record ==> all_aliases(rrs_for_query@),""",
               "entry": BU + " let ghost idx = ita__.index@ as int; assert(*an == response.answers@[idx]); proof { lemma_in_section(response.answers@, idx); } let ghost rq_b = rrs_for_query@;"},
         "2": {"kw": "for", "iter_name": "itb__", "spec": """        invariant
             itb__.seq().len() == response.answers@.len(), forall|j: int| 0 <= j < itb__.seq().len() ==> *itb__.seq()[j] == response.answers@[j],
